@@ -11,6 +11,7 @@ mod c07;
 mod c08;
 mod c09;
 mod c10;
+mod c11;
 mod mergecheck;
 mod modgen;
 mod c12;
@@ -32,6 +33,7 @@ fn run_property(id: &str, tier: &str) -> Option<Run> {
         "C08" => c08::run(tier),
         "C09" => c09::run(tier),
         "C10" => c10::run(tier),
+        "C11" => c11::run(tier),
         "C12" => c12::run(tier),
         "C13" => c13::run(tier),
         _ => return None,
@@ -64,6 +66,7 @@ fn main() {
             "C08" => c08::replay(&v["replay"]),
             "C09" => c09::replay(&v["replay"]),
             "C10" => c10::replay(&v["replay"]),
+            "C11" => c11::replay(&v["replay"]),
             "C12" => c12::replay(&v["replay"]),
             "C13" => c13::replay(&v["replay"]),
             _ => Err(format!("no replay for property {prop}")),
